@@ -34,6 +34,9 @@ type Desc struct {
 	Op        string   `json:"op,omitempty"` // operator name without '@' (streq, rx)
 	Arg       string   `json:"arg,omitempty"`
 	Actions   []Action `json:"a"`
+	// Default: action list of a SecDefaultAction written in front of the rule (in the same style); the
+	// rule's `block` stands for the disruptive action and status of that list
+	Default []Action `json:"default,omitempty"`
 }
 
 const (
@@ -42,7 +45,7 @@ const (
 	kindRegex = 2
 )
 
-var valueless = map[string]bool{"pass": true, "log": true, "nolog": true, "deny": true, "auditlog": true, "noauditlog": true}
+var valueless = map[string]bool{"pass": true, "log": true, "nolog": true, "deny": true, "auditlog": true, "noauditlog": true, "block": true}
 var valued = map[string]bool{"id": true, "phase": true, "msg": true, "logdata": true, "tag": true, "severity": true,
 	"setvar": true, "status": true, "redirect": true, "t": true, "rev": true, "ver": true}
 
@@ -297,6 +300,7 @@ func descriptions(thorough bool, emit func(axis string, d Desc)) {
 				Op: "streq", Arg: arg, Actions: denyActs})
 		}
 	})
+	defaultActionDescs(emit)
 	// action axis
 	for _, al := range actionLists(thorough) {
 		emit("actions", Desc{Targets: []Target{argsKeyA}, Op: "streq", Arg: "v1", Actions: al})
@@ -305,6 +309,21 @@ func descriptions(thorough bool, emit func(axis string, d Desc)) {
 		}
 		if thorough {
 			emit("actions", Desc{Targets: []Target{{Coll: "ARGS_GET", Kind: kindRegex, Key: "^a|b$", Quoted: true}}, Not: true, Op: "streq", Arg: `a" "b\\`, Actions: al})
+		}
+	}
+}
+
+// defaultActionDescs: a rule whose `block` takes its meaning from a SecDefaultAction of the rule's phase.
+func defaultActionDescs(emit func(axis string, d Desc)) {
+	for _, phase := range []string{"1", "2"} {
+		for _, def := range [][]Action{
+			acts("phase="+phase, "log", "deny", "status=401"),
+			acts("phase="+phase, "nolog", "pass"),
+			{{"phase", phase}, {"log", ""}, {"status", "307"}, {"redirect", "http://h/p?x=1,2"}},
+		} {
+			for _, own := range [][]Action{acts("id=1", "phase="+phase, "block"), acts("id=1", "phase="+phase, "block", "msg=a, b:c"), acts("id=1", "phase="+phase, "log", "tag=t1")} {
+				emit("actions", Desc{Targets: []Target{argsKeyA}, Op: "streq", Arg: "v1", Actions: own, Default: def})
+			}
 		}
 	}
 }
@@ -328,6 +347,9 @@ type Style struct {
 	Place    int   `json:"pl,omitempty"` // 0 inline, 1 included file, 2 nested include in a sub directory (quoted path), 3 glob include
 	NoFinal  bool  `json:"nf,omitempty"` // the last line has no newline
 	LongLine int   `json:"ll,omitempty"` // 1 a 70 kB comment line precedes the rule
+	// Split: a line continuation in the middle of a token - after every backslash of the rule text, and after every
+	// 'a', that is followed by a non-blank character (the continuation backslash then directly follows a content byte)
+	Split bool `json:"sp,omitempty"`
 }
 
 func (s Style) has(b int) bool {
@@ -347,6 +369,9 @@ func (s Style) dims() []string {
 	}
 	if s.ActCase != 0 {
 		d = append(d, fmt.Sprintf("action-case=%d", s.ActCase))
+	}
+	if s.Split {
+		d = append(d, "continuation-inside-token")
 	}
 	if s.Quote != 0 {
 		d = append(d, "all-values-quoted")
@@ -404,6 +429,8 @@ func (s Style) only(dim string) Style {
 		o.NoFinal = true
 	case dim == "line-over-64k":
 		o.LongLine = s.LongLine
+	case dim == "continuation-inside-token":
+		o.Split = true
 	}
 	return o
 }
@@ -439,6 +466,7 @@ func (s Style) with(o Style) Style {
 	}
 	s.CRLF = s.CRLF || o.CRLF
 	s.NoFinal = s.NoFinal || o.NoFinal
+	s.Split = s.Split || o.Split
 	return s
 }
 
@@ -538,6 +566,13 @@ func renderRule(d Desc, st Style) (string, []Delim) {
 		}
 		boundary++
 	}
+	if len(d.Default) > 0 {
+		// the default action list precedes the rule on a line of its own, written in the same style
+		// (its continuation boundaries are not varied)
+		def, _ := renderRule(Desc{SecAction: true, Actions: d.Default}, Style{DirCase: st.DirCase, ActCase: st.ActCase, Quote: st.Quote, CommaSp: st.CommaSp, Indent: st.Indent})
+		w.text(strings.Replace(def, caseOf("SecAction", st.DirCase), caseOf("SecDefaultAction", st.DirCase), 1))
+		w.text("\n")
+	}
 	if st.Indent != 0 {
 		w.text("    ")
 	}
@@ -615,7 +650,29 @@ func renderRule(d Desc, st Style) (string, []Delim) {
 		}
 	}
 	w.delim("actions-close-dquote", "\"")
+	if st.Split {
+		return splitInsideTokens(w.sb.String()), nil
+	}
 	return w.sb.String(), w.delims
+}
+
+// splitInsideTokens inserts a line continuation after every backslash and every 'a' of the rule text that is
+// followed by a non-blank byte and is not itself part of a continuation. Lines are trimmed before they are
+// joined, so only such positions leave the logical line unchanged.
+func splitInsideTokens(s string) string {
+	var sb strings.Builder
+	for i := 0; i < len(s); i++ {
+		sb.WriteByte(s[i])
+		if (s[i] != '\\' && s[i] != 'a') || i+1 >= len(s) {
+			continue
+		}
+		switch s[i+1] {
+		case ' ', '\t', '\n', '\r':
+			continue
+		}
+		sb.WriteString("\\\n")
+	}
+	return sb.String()
 }
 
 // boundaries is the number of token boundaries of d that can carry a continuation.
